@@ -953,6 +953,157 @@ impl fmt::Display for CertRef<'_> {
     }
 }
 
+/// Verification-harness view (add-only): prints the fields of the certificate exactly as the
+/// private accessors used by `CertRef::encode` return them, one token per field:
+/// `serial=<hex> sa=<n> issuer=[<tag|?>:<u<dec>|s<hex>|p<hex>>;…] nb=<n> na=<n> subject=[…] pa=<n>
+/// curve=<n> pk=<hex> ext=[bc<0|1>:<path|->;ku<n>;eku<n>,<n>…;skid<hex>;akid<hex>;fut<hex>;…]`,
+/// `!<ErrorCode>` where an accessor (or a list item) fails; a list ends at its first failing item
+/// (which is where `encode` stops as well).
+#[cfg(feature = "verif")]
+impl CertRef<'_> {
+    pub fn verif_fields(&self, o: &mut dyn fmt::Write) -> fmt::Result {
+        fn hexs(o: &mut dyn fmt::Write, b: &[u8]) -> fmt::Result {
+            if b.is_empty() {
+                o.write_str("-")?;
+            }
+            for x in b {
+                write!(o, "{:02x}", x)?;
+            }
+            Ok(())
+        }
+
+        fn err(o: &mut dyn fmt::Write, e: &Error) -> fmt::Result {
+            write!(o, "!{:?}", e.code())
+        }
+
+        fn bytes(o: &mut dyn fmt::Write, name: &str, r: Result<&[u8], Error>) -> fmt::Result {
+            write!(o, "{}=", name)?;
+            match r {
+                Ok(b) => hexs(o, b),
+                Err(e) => err(o, &e),
+            }
+        }
+
+        fn num(o: &mut dyn fmt::Write, name: &str, r: Result<u64, Error>) -> fmt::Result {
+            write!(o, "{}=", name)?;
+            match r {
+                Ok(v) => write!(o, "{}", v),
+                Err(e) => err(o, &e),
+            }
+        }
+
+        fn dns<'a>(
+            o: &mut dyn fmt::Write,
+            name: &str,
+            l: Result<TLVList<'a, DN<'a>>, Error>,
+        ) -> fmt::Result {
+            write!(o, "{}=", name)?;
+            let l = match l {
+                Ok(l) => l,
+                Err(e) => return err(o, &e),
+            };
+            o.write_str("[")?;
+            for (i, dn) in l.iter().enumerate() {
+                if i > 0 {
+                    o.write_str(";")?;
+                }
+                let dn = match dn {
+                    Ok(dn) => dn,
+                    Err(e) => {
+                        err(o, &e)?;
+                        break;
+                    }
+                };
+                match dn.tag() {
+                    Ok(t) => write!(o, "{}", t as u8)?,
+                    Err(_) => o.write_str("?")?,
+                }
+                o.write_str(":")?;
+                match dn.value() {
+                    Ok(DNValue::Uint(v)) => write!(o, "u{}", v)?,
+                    Ok(DNValue::Utf8(s)) => {
+                        o.write_str("s")?;
+                        hexs(o, s.as_bytes())?;
+                    }
+                    Ok(DNValue::PrintableStr(s)) => {
+                        o.write_str("p")?;
+                        hexs(o, s.as_bytes())?;
+                    }
+                    Err(e) => err(o, &e)?,
+                }
+            }
+            o.write_str("]")
+        }
+
+        bytes(o, "serial", self.serial_no())?;
+        num(o, " sa", self.sign_algo().map(Into::into))?;
+        dns(o, " issuer", self.issuer())?;
+        num(o, " nb", self.not_before().map(Into::into))?;
+        num(o, " na", self.not_after().map(Into::into))?;
+        dns(o, " subject", self.subject())?;
+        num(o, " pa", self.pubkey_algo().map(Into::into))?;
+        num(o, " curve", self.ec_curve_id().map(Into::into))?;
+        bytes(o, " pk", self.pubkey())?;
+
+        o.write_str(" ext=")?;
+        let l = match self.extensions() {
+            Ok(l) => l,
+            Err(e) => return err(o, &e),
+        };
+        o.write_str("[")?;
+        for (i, ext) in l.iter().enumerate() {
+            if i > 0 {
+                o.write_str(";")?;
+            }
+            let ext = match ext {
+                Ok(ext) => ext,
+                Err(e) => {
+                    err(o, &e)?;
+                    break;
+                }
+            };
+            match ext {
+                Extension::BasicConstraints(b) => {
+                    write!(o, "bc{}:", b.is_ca as u8)?;
+                    match b.path {
+                        Some(p) => write!(o, "{}", p)?,
+                        None => o.write_str("-")?,
+                    }
+                }
+                Extension::KeyUsage(v) => write!(o, "ku{}", v)?,
+                Extension::ExtKeyUsage(a) => {
+                    o.write_str("eku")?;
+                    for (j, t) in a.iter().enumerate() {
+                        if j > 0 {
+                            o.write_str(",")?;
+                        }
+                        match t {
+                            Ok(t) => write!(o, "{}", t)?,
+                            Err(e) => {
+                                err(o, &e)?;
+                                break;
+                            }
+                        }
+                    }
+                }
+                Extension::SubjectKeyId(b) => {
+                    o.write_str("skid")?;
+                    hexs(o, b.0)?;
+                }
+                Extension::AuthorityKeyId(b) => {
+                    o.write_str("akid")?;
+                    hexs(o, b.0)?;
+                }
+                Extension::FutureExtensions(b) => {
+                    o.write_str("fut")?;
+                    hexs(o, b.0)?;
+                }
+            }
+        }
+        o.write_str("]")
+    }
+}
+
 /// Matter operational-cert type, derived from the subject DN's CA-id tags.
 #[derive(Debug, Clone, Copy, PartialEq, Eq)]
 #[cfg_attr(feature = "defmt", derive(defmt::Format))]
